@@ -19,7 +19,7 @@ META = {
 
 def k_reply(reply: str) -> str:
     """
-    pre: len(reply) <= 4
+    pre: len(reply) <= (PARTITION or 4)
     post: _ == ''
     """
     rt.begin()
@@ -167,8 +167,8 @@ def w_inter(inter: int, reply: int, days: int) -> str:
 
 def obligations(tier):
     return [
-        CH('K_reply_all_strings', MOD, 'k_reply', timeout=120, engine='K', regime='traced',
-           encodes=['trashcli.empty.parse_reply.parse_reply'], bounds='reply: any str, len<=4'),
+        CH('K_reply_all_strings', MOD, 'k_reply', timeout=120 if tier == 'quick' else 600, partitions=[4 if tier == 'quick' else 8], engine='K', regime='traced',
+           encodes=['trashcli.empty.parse_reply.parse_reply'], bounds='reply: any str, len<=%d' % (4 if tier == 'quick' else 8)),
         CH('K_guard', MOD, 'k_guard', timeout=180, engine='K', regime='traced',
            encodes=['Guard.ask_the_user', 'User.do_you_wanna_empty_trash_dirs', 'parse_reply', 'prepare_output_message'],
            bounds='reply: any str len<=3; interactive symbolic', stubs=['Input -> fixed reply']),
